@@ -242,6 +242,25 @@ def check_case(inputs, output, sd, nested, sl, tier, seed, res, do_exec,
                         tree.total_flops():
                     bad.append(("exec-total-flops",))
             res.evals += 1
+        # the same tree object executed under every traversal order in turn
+        # (order callables that are distinct objects of the same name, one
+        # implementation pair): the sequence of intermediates produced must
+        # be the sequence the tree reports for THAT order
+        rec = ShapeRecorder()
+        for o in orders:
+            oarg = (lambda node, rk=o: rk[node]) if isinstance(o, dict) else o
+            steps, ok = nets.valid_order_of(tree, oarg)
+            if not ok:
+                continue
+            rec.steps.clear()
+            tree.contract_slice(arrays, 0, order=oarg,
+                                implementation=(rec.einsum, rec.tensordot))
+            got_seq = [s[2] for s in rec.steps if s[0] != "pre"]
+            want_seq = [tree.get_size(p) for p, l, r in steps]
+            if got_seq != want_seq:
+                bad.append(("exec-order-sequence", str(o)[:40], got_seq,
+                            want_seq))
+            res.evals += 1
     return bad
 
 
